@@ -359,7 +359,12 @@ def pair_oracle(ctx, o_pair, first_only=False):
             for ln, r_, p_ in grid:
                 salt = bytes(rng.randrange(256) for _ in range(8))
                 inp = {"op": "scrypt-stdlib-boundary", "rounds": ln, "block_size": r_, "parallelism": p_, "salt": salt.hex()}
-                want = hashlib.scrypt(b"pw", salt=salt, n=1 << ln, r=r_, p=p_, dklen=32, maxmem=1 << 30)
+                if ln >= 16 * r_:
+                    continue            # not scrypt parameters at all (RFC 7914: N < 2^(128 r / 8))
+                try:
+                    want = hashlib.scrypt(b"pw", salt=salt, n=1 << ln, r=r_, p=p_, dklen=32, maxmem=1 << 30)
+                except ValueError:
+                    continue            # the reference itself cannot serve this set on this host
                 try:
                     hs = sc.using(rounds=ln, block_size=r_, parallelism=p_, salt=salt).hash("pw")
                     got = sc.from_string(hs).checksum
